@@ -182,7 +182,7 @@ func c15PopulationTx(r *rng, kinds []int, order []int) string {
 	var ops []string
 	for _, i := range order {
 		id := i + 1
-		roles := c15Roles(r)
+		roles := c15ValidRoles(r)
 		switch kinds[i] {
 		case c15Plain:
 			ops = append(ops, fmt.Sprintf("c/0/%d/%d/%s/n", id, id, roles))
@@ -203,6 +203,19 @@ func c15PopulationTx(r *rng, kinds []int, order []int) string {
 		return "d/0/1" // empty population: a delete that fails
 	}
 	return strings.Join(ops, ",")
+}
+
+// roles the parent strategy accepts (a refused create would abort the population's transaction)
+func c15ValidRoles(r *rng) string {
+	n := r.intn(4)
+	if n == 0 {
+		return "-"
+	}
+	var out []string
+	for i := 0; i < n; i++ {
+		out = append(out, strconv.Itoa(1+r.intn(3)))
+	}
+	return strings.Join(out, ".")
 }
 
 func c15Shuffled(r *rng, n int) []int {
